@@ -60,3 +60,21 @@ NOISE_CHARS = [chr(c) for c in list(range(32, 127)) + [9, 10, 13, 0x85, 0xA0, 0x
 
 def unicode_noise(rng, n):
     return "".join(rng.choice(NOISE_CHARS) for _ in range(n))
+
+
+SOUP = list("0123456789..,;(){}[]+-*/%<>=!&|\"\\ \n_aeén") + ["als", "stel", "ja", "//", "1.5", "functie"]
+
+
+def char_soup(rng, n):
+    """texts over the language's own characters, no separators: adjacent tokens fuse as the lexer pleases"""
+    return "".join(rng.choice(SOUP) for _ in range(n))
+
+
+def glue_tokens(rng, toks):
+    """tokens written with separators dropped at random, whatever that does to them"""
+    out = []
+    for t in toks:
+        out.append(t)
+        if rng.random() < 0.4:
+            out.append(" ")
+    return "".join(out)
